@@ -86,629 +86,36 @@ class Tracer(finite.Machine):
         return super().stmt(s, st)
 
 
-def _select_fn(P) -> FuncInfo:
-    return P.func(QX, 'execute_select')
 
 
-def _qparam(fi):
-    if not fi.params:
-        raise AnalysisError(f'{fi.fq}: no query parameter')
-    return fi.params[0]
 
 
-def _aliases(fi, expr_src):
-    """Names assigned (at any depth) exactly the expression `expr_src`, plus the expression itself."""
-    out = {expr_src}
-    for n in ast.walk(fi.node):
-        if isinstance(n, ast.Assign) and len(n.targets) == 1 and isinstance(n.targets[0], ast.Name) \
-                and unparse(n.value) == expr_src:
-            out.add(n.targets[0].id)
-    return out
 
 
-def _table_loops(fi):
-    q = _qparam(fi)
-    tables = _aliases(fi, f'{q}.table')
-    return [n for n in ast.walk(fi.node) if isinstance(n, ast.For) and unparse(n.iter) in tables]
 
 
-def _classify_loops(fi):
-    agg, plain = [], []
-    for lp in _table_loops(fi):
-        src = unparse(lp)
-        if '.update(' in src:
-            agg.append(lp)
-        else:
-            plain.append(lp)
-    if len(agg) != 1 or len(plain) != 1:
-        raise AnalysisError(f'{fi.fq}: expected one aggregate and one non-aggregate scan of the table, found '
-                            f'{len(agg)} and {len(plain)}: shape not understood')
-    return plain[0], agg[0]
 
 
-def _rows_var(fi):
-    """The result-list variable: the name returned (inside list(...)) at the end."""
-    body = body_without_docstring(fi.node)
-    ret = body[-1]
-    if not isinstance(ret, ast.Return) or not isinstance(ret.value, ast.Tuple) or len(ret.value.elts) != 2:
-        raise AnalysisError(f'{fi.fq}: final `return description, rows` not found')
-    v = ret.value.elts[1]
-    if isinstance(v, ast.Call) and unparse(v.func) == 'list' and len(v.args) == 1:
-        v = v.args[0]
-    if isinstance(v, (ast.ListComp, ast.GeneratorExp)) and len(v.generators) == 1 and isinstance(v.generators[0].iter, ast.Name):
-        # the final projection folded into the return statement
-        return v.generators[0].iter.id, ret
-    if not isinstance(v, ast.Name):
-        raise AnalysisError(f'{fi.fq}: returned rows are not a plain variable')
-    return v.id, ret
 
 
-def _where_var(fi):
-    q = _qparam(fi)
-    names = _aliases(fi, f'{q}.c_where')
-    return names
 
 
-def _gate_check(fi, loop, rowsvar, where_names, wanted_event, res, construct, rule_detail):
-    """Run the loop body over c_where in {absent, present} x result in {NULL, false, true}."""
-    wn = sorted(where_names, key=len)[0]
-    target = loop.target.id if isinstance(loop.target, ast.Name) else None
-    if target is None:
-        raise AnalysisError(f'{fi.fq}: table loop target is not a name')
-    ok = True
-    for present in (False, True):
-        for cls in ((None, False, True) if present else (None,)):
-            names = {}
-            for w in where_names:
-                names[w] = None if not present else finite.Sym('W')
-            tr = Tracer(classes={w: cls for w in where_names}, names=names)
-            st = {target: finite.Sym('ROW')}
-            try:
-                tr.run(loop.body, st)
-            except finite.Continue:
-                pass
-            except finite.Return:
-                pass
-            passed = any(wanted_event(e) for e in tr.events)
-            # the WHERE node must be applied to the loop variable itself
-            for e in tr.events:
-                if e[0] == 'call' and e[1] in where_names and e[2] != (target,):
-                    res.fail(construct, rule_detail + ':where-arg',
-                             f'the WHERE condition is evaluated on `{", ".join(e[2])}`, not on the current row `{target}`',
-                             loc(fi, loop))
-                    ok = False
-            want = (not present) or (cls is True)
-            if passed != want:
-                desc = 'absent' if not present else {None: 'NULL', False: 'false', True: 'true'}[cls]
-                res.fail(construct, rule_detail + ':gate',
-                         f'with the WHERE condition {desc} the row is {"kept" if passed else "dropped"}; the statement '
-                         f'requires it to be {"kept" if want else "dropped"} (NULL and false both exclude)', loc(fi, loop))
-                ok = False
-    return ok
 
 
-def rule_rowloop(P) -> RuleResult:
-    res = RuleResult('R-ROWLOOP')
-    fi = _select_fn(P)
-    plain, agg = _classify_loops(fi)
-    rows, _ = _rows_var(fi)
-    where = _where_var(fi)
-    q = _qparam(fi)
-    construct = fi.fq + ':non-aggregate-scan'
-    if not where - {f'{q}.c_where'} and f'{q}.c_where' not in unparse(plain):
-        raise AnalysisError(f'{fi.fq}: WHERE node variable not found')
-    target = plain.target.id
-    # (1) gate
-    ok = _gate_check(fi, plain, rows, where,
-                     lambda e: e[0] == 'append' and e[1] == rows, res, construct, 'rowloop')
-    # (2) exactly one append per iteration, outside any inner loop
-    appends = [n for n in ast.walk(plain) if isinstance(n, ast.Call) and isinstance(n.func, ast.Attribute)
-               and n.func.attr in ('append', 'extend', 'insert') and unparse(n.func.value) == rows]
-    inner_loops = [n for n in ast.walk(plain) if isinstance(n, (ast.For, ast.While)) and n is not plain]
-    if len(appends) != 1 or appends[0].func.attr != 'append':
-        res.fail(construct, 'rowloop:append', f'the scan must append exactly one row per qualifying source row; found '
-                 f'{len(appends)} append/extend/insert sites', loc(fi, plain))
-        ok = False
-    else:
-        for lp in inner_loops:
-            if any(n is appends[0] for n in ast.walk(lp)):
-                res.fail(construct, 'rowloop:append', 'the row append sits in an inner loop (more than one row per source row)',
-                         loc(fi, plain))
-                ok = False
-        # (3) the appended row: every target expression applied to the same loop variable, in list order
-        val = appends[0].args[0]
-        if isinstance(val, ast.Name):
-            defs = [n for n in ast.walk(plain) if isinstance(n, ast.Assign) and len(n.targets) == 1
-                    and isinstance(n.targets[0], ast.Name) and n.targets[0].id == val.id]
-            if len(defs) == 1:
-                val = defs[0].value
-        exprs_var = None
-        if isinstance(val, (ast.ListComp, ast.GeneratorExp)) or (isinstance(val, ast.Call) and unparse(val.func) in ('list', 'tuple')
-                                                                  and val.args and isinstance(val.args[0], (ast.ListComp, ast.GeneratorExp))):
-            comp = val if isinstance(val, (ast.ListComp, ast.GeneratorExp)) else val.args[0]
-            gen = comp.generators[0]
-            if (len(comp.generators) == 1 and not gen.ifs and isinstance(gen.target, ast.Name)
-                    and isinstance(comp.elt, ast.Call) and unparse(comp.elt.func) == gen.target.id
-                    and [unparse(a) for a in comp.elt.args] == [target] and isinstance(gen.iter, ast.Name)):
-                exprs_var = gen.iter.id
-            else:
-                res.fail(construct, 'rowloop:values',
-                         f'the result row must be [expr({target}) for expr in <all target expressions>]; found `{unparse(comp)}`',
-                         loc(fi, plain))
-                ok = False
-        else:
-            raise AnalysisError(f'{fi.fq}: row value `{unparse(val)}` is not a comprehension over the target expressions')
-        if exprs_var is not None:
-            defs = [n for n in ast.walk(fi.node) if isinstance(n, ast.Assign) and len(n.targets) == 1
-                    and isinstance(n.targets[0], ast.Name) and n.targets[0].id == exprs_var]
-            good = False
-            if len(defs) == 1 and isinstance(defs[0].value, ast.ListComp):
-                c = defs[0].value
-                g = c.generators[0]
-                good = (len(c.generators) == 1 and not g.ifs and unparse(g.iter) == f'{q}.c_targets'
-                        and isinstance(g.target, ast.Name) and unparse(c.elt) == f'{g.target.id}.c_expr')
-            if not good:
-                res.fail(construct, 'rowloop:targets',
-                         f'`{exprs_var}` must be the expression of every target of {q}.c_targets in order', loc(fi, plain))
-                ok = False
-    if ok:
-        res.ok({'loop': f'for {target} in {unparse(plain.iter)}', 'gate': 'absent or truthy', 'append': 'once per row',
-                'cases': 4})
-    return res
 
 
 # ----------------------------------------------------------------------
 # R-AGGPROTO
 
-def rule_aggproto(P) -> RuleResult:
-    res = RuleResult('R-AGGPROTO')
-    fi = _select_fn(P)
-    plain, agg = _classify_loops(fi)
-    rows, _ = _rows_var(fi)
-    q = _qparam(fi)
-    where = _where_var(fi)
-    construct = fi.fq + ':aggregate-branch'
-    target = agg.target.id if isinstance(agg.target, ast.Name) else None
-
-    def fail(detail, msg, node=None):
-        res.fail(construct, 'aggproto:' + detail, msg, loc(fi, node or agg))
-
-    # the list L of aggregate nodes: the variable iterated where .update( is called
-    upd_loops = [n for n in ast.walk(agg) if isinstance(n, ast.For) and n is not agg and '.update(' in unparse(n)]
-    if len(upd_loops) != 1 or not isinstance(upd_loops[0].iter, ast.Name):
-        raise AnalysisError(f'{fi.fq}: aggregate update loop not found: shape not understood')
-    L = upd_loops[0].iter.id
-    n0 = len(res.findings)
-
-    # (d) gate + update of every element with the store looked up by this row's key
-    _gate_check(fi, agg, rows, where, lambda e: e[0] == 'call' and e[1].endswith('.update'), res, construct, 'aggproto')
-    ul = upd_loops[0]
-    calls = [n for n in ast.walk(ul) if isinstance(n, ast.Call) and isinstance(n.func, ast.Attribute) and n.func.attr == 'update']
-    storevar = None
-    if len(calls) != 1 or unparse(calls[0].func.value) != ul.target.id or len(calls[0].args) != 2 \
-            or unparse(calls[0].args[1]) != target:
-        fail('update', f'every aggregate node must be updated with (store, {target}); found `{unparse(calls[0]) if calls else "nothing"}`', ul)
-    if calls and calls[0].args:
-        storevar = unparse(calls[0].args[0])
-    # store = aggregates[key]; key = tuple(c_expr(context) for c_expr in NONAGG)
-    container = keyvar = None
-    for n in ast.walk(agg):
-        if isinstance(n, ast.Assign) and len(n.targets) == 1 and storevar and unparse(n.targets[0]) == storevar:
-            v = n.value
-            if isinstance(v, ast.Subscript) and isinstance(v.value, ast.Name):
-                container, keyvar = v.value.id, unparse(v.slice)
-            elif isinstance(v, ast.Call) and isinstance(v.func, ast.Attribute) and v.func.attr == 'setdefault' \
-                    and isinstance(v.func.value, ast.Name):
-                container, keyvar = v.func.value.id, unparse(v.args[0])
-    if container is None:
-        raise AnalysisError(f'{fi.fq}: per-group store lookup not found: shape not understood')
-    keydefs = [n for n in ast.walk(agg) if isinstance(n, ast.Assign) and len(n.targets) == 1 and unparse(n.targets[0]) == keyvar]
-    nonagg = None
-    if len(keydefs) == 1 and isinstance(keydefs[0].value, ast.Call) and unparse(keydefs[0].value.func) == 'tuple' \
-            and keydefs[0].value.args and isinstance(keydefs[0].value.args[0], (ast.GeneratorExp, ast.ListComp)):
-        comp = keydefs[0].value.args[0]
-        g = comp.generators[0]
-        if (len(comp.generators) == 1 and not g.ifs and isinstance(comp.elt, ast.Call)
-                and unparse(comp.elt.func) == unparse(g.target) and [unparse(a) for a in comp.elt.args] == [target]
-                and isinstance(g.iter, ast.Name)):
-            nonagg = g.iter.id
-        else:
-            fail('key', f'the group key must be the tuple of every non-aggregate expression evaluated on `{target}`; '
-                 f'found `{unparse(comp)}`', keydefs[0])
-    else:
-        raise AnalysisError(f'{fi.fq}: group key computation not understood')
-
-    # (c) the container: insertion-ordered mapping created with a factory, iterated with .items(), not sorted
-    cdefs = [n for n in ast.walk(fi.node) if isinstance(n, ast.Assign) and len(n.targets) == 1
-             and unparse(n.targets[0]) == container]
-    factory = None
-    if len(cdefs) != 1:
-        raise AnalysisError(f'{fi.fq}: group container `{container}` must be defined once')
-    cv = cdefs[0].value
-    if isinstance(cv, ast.Call) and unparse(cv.func) in ('collections.defaultdict', 'defaultdict') and len(cv.args) == 1 \
-            and isinstance(cv.args[0], ast.Name):
-        factory = cv.args[0].id
-    elif isinstance(cv, ast.Dict) and not cv.keys or (isinstance(cv, ast.Call) and unparse(cv.func) == 'dict' and not cv.args):
-        # dict + setdefault(key, create())
-        for n in ast.walk(agg):
-            if isinstance(n, ast.Call) and isinstance(n.func, ast.Attribute) and n.func.attr == 'setdefault' \
-                    and len(n.args) == 2 and isinstance(n.args[1], ast.Call) and isinstance(n.args[1].func, ast.Name):
-                factory = n.args[1].func.id
-    else:
-        fail('container', f'groups must be kept in an insertion-ordered mapping (dict/defaultdict); found `{unparse(cv)}`', cdefs[0])
-    out_loops = [n for n in ast.walk(fi.node) if isinstance(n, ast.For) and container in {x.id for x in ast.walk(n.iter) if isinstance(x, ast.Name)}]
-    if len(out_loops) != 1:
-        raise AnalysisError(f'{fi.fq}: output loop over the groups not found')
-    ol = out_loops[0]
-    if unparse(ol.iter) != f'{container}.items()':
-        fail('order', f'groups must be output in order of first appearance: iterate `{container}.items()` as is; found '
-             f'`{unparse(ol.iter)}`', ol)
-    okey = ostore = None
-    if isinstance(ol.target, ast.Tuple) and len(ol.target.elts) == 2:
-        okey, ostore = (unparse(x) for x in ol.target.elts)
-    else:
-        raise AnalysisError(f'{fi.fq}: output loop target is not (key, store)')
-
-    # (a) allocate on every element of L before the container is created
-    alloc_loops = [n for n in body_without_docstring(fi.node) for m in [n] if False]
-    alloc = [n for n in ast.walk(fi.node) if isinstance(n, ast.For) and '.allocate(' in unparse(n)]
-    if len(alloc) != 1 or unparse(alloc[0].iter) != L:
-        fail('allocate', f'every aggregate node of `{L}` must be given a slot before aggregation (allocate loop over {L})',
-             alloc[0] if alloc else None)
-    elif alloc[0].lineno > cdefs[0].lineno:
-        fail('allocate', 'slots must be allocated before the first store is created', alloc[0])
-    # (b) the store factory initialises every element of L
-    fdef = None
-    if factory:
-        fdef = fi.module.functions.get(f'{fi.qualname}.<locals>.{factory}')
-    if fdef is None:
-        raise AnalysisError(f'{fi.fq}: store factory `{factory}` not found')
-    init_loops = [n for n in ast.walk(fdef.node) if isinstance(n, ast.For) and '.initialize(' in unparse(n)]
-    if len(init_loops) != 1 or unparse(init_loops[0].iter) != L:
-        fail('initialize', f'a new group store must initialise every aggregate node of `{L}`; found '
-             f'`for ... in {unparse(init_loops[0].iter) if init_loops else "?"}`', fdef.node)
-    else:
-        icalls = [n for n in ast.walk(init_loops[0]) if isinstance(n, ast.Call) and isinstance(n.func, ast.Attribute)
-                  and n.func.attr == 'initialize']
-        rets = [n for n in ast.walk(fdef.node) if isinstance(n, ast.Return)]
-        if len(icalls) != 1 or len(rets) != 1 or unparse(icalls[0].args[0]) != unparse(rets[0].value):
-            fail('initialize', 'the factory must initialise and return the same fresh store', fdef.node)
-        sdef = [n for n in ast.walk(fdef.node) if isinstance(n, ast.Assign) and rets and unparse(n.targets[0]) == unparse(rets[0].value)]
-        if not sdef or 'create_store' not in unparse(sdef[0].value):
-            fail('initialize', 'every group needs a fresh store from the allocator', fdef.node)
-    # (e) output loop: finalize every element of L with this group's store, before any target is evaluated
-    fin = [n for n in ast.walk(ol) if isinstance(n, ast.For) and n is not ol and '.finalize(' in unparse(n)]
-    tgt_loops = [n for n in ast.walk(ol) if isinstance(n, ast.For) and n is not ol and '.finalize(' not in unparse(n)]
-    if len(fin) != 1 or unparse(fin[0].iter) != L:
-        fail('finalize', f'every aggregate node of `{L}` must be finalised for each group before the output row is computed', ol)
-    else:
-        fc = [n for n in ast.walk(fin[0]) if isinstance(n, ast.Call) and isinstance(n.func, ast.Attribute) and n.func.attr == 'finalize']
-        if len(fc) != 1 or [unparse(a) for a in fc[0].args] != [ostore]:
-            fail('finalize', f'aggregates must be finalised from this group\'s store `{ostore}`; found `{unparse(fc[0]) if fc else "?"}`', fin[0])
-        # is the finalize loop a direct child of the output loop and before the value loop?
-        if fin[0] not in ol.body:
-            fail('finalize', 'the finalize loop must run once per group (directly inside the group loop)', fin[0])
-        for tl in tgt_loops:
-            if tl in ol.body and ol.body.index(tl) < ol.body.index(fin[0]) if fin[0] in ol.body else False:
-                fail('finalize', 'target expressions are evaluated before the aggregates of the group are finalised', tl)
-    fin_outside = [n for n in ast.walk(fi.node) if isinstance(n, ast.Call) and isinstance(n.func, ast.Attribute)
-                   and n.func.attr == 'finalize' and not any(n is m for m in ast.walk(ol))]
-    if fin_outside:
-        fail('finalize', 'aggregates are finalised outside the per-group loop', fin_outside[0])
-    # (f) HAVING: rows whose having value is falsy are skipped, test placed before the append
-    apps = [n for n in ast.walk(ol) if isinstance(n, ast.Call) and isinstance(n.func, ast.Attribute)
-            and n.func.attr == 'append' and unparse(n.func.value) == rows]
-    if len(apps) != 1:
-        fail('append', f'exactly one output row per group must be appended to `{rows}`', ol)
-    else:
-        valvar = unparse(apps[0].args[0])
-        for present in (False, True):
-            for cls in ((None, False, True) if present else (None,)):
-                hv = f'{q}.having_index'
-                tr = Tracer(names={hv: (finite.Sym('HI') if present else None), okey: finite.Sym('KEY'), ostore: finite.Sym('ST'),
-                                   q: finite.Sym('Q'), rows: finite.Sym('ROWS'), 'group_indexes': finite.Sym('GI')})
-                orig_expr = tr.expr
-
-                def expr(e, st, m, _cls=cls, _orig=orig_expr, _hv=hv, _valvar=valvar):
-                    if isinstance(e, ast.Subscript) and unparse(e.slice) == _hv and unparse(e.value) == _valvar:
-                        return _cls
-                    return _orig(e, st, m)
-                tr.expr = expr
-                try:
-                    hidx = [i for i, s in enumerate(ol.body) if hv in unparse(s)]
-                    body = ol.body[hidx[0]:] if hidx else [s for s in ol.body if rows in unparse(s)]
-                    tr.run(body, {valvar: ()})
-                except finite.Continue:
-                    pass
-                except AnalysisError:
-                    raise
-                passed = any(e[0] == 'append' and e[1] == rows for e in tr.events)
-                want = (not present) or cls is True
-                if passed != want:
-                    desc = 'absent' if not present else {None: 'NULL', False: 'false', True: 'true'}[cls]
-                    fail('having', f'with HAVING {desc} the group row is {"kept" if passed else "dropped"}, expected '
-                         f'{"kept" if want else "dropped"}', ol)
-    # (g) layout of the key tuple: produced and consumed over the same sequence with the same filter
-    src = unparse(ol)
-    consumer = None
-    for n in ast.walk(ol):
-        if isinstance(n, ast.For) and n is not ol and isinstance(n.iter, ast.Call) and unparse(n.iter.func) == 'enumerate':
-            for t in n.body:
-                if isinstance(t, ast.If) and 'next(' in unparse(t.body) and isinstance(t.test, ast.Compare) \
-                        and isinstance(t.test.ops[0], ast.In):
-                    consumer = (unparse(n.iter.args[0]), unparse(t.test.comparators[0]), unparse(t.test.left),
-                                unparse(n.target.elts[0]) if isinstance(n.target, ast.Tuple) else None)
-    if consumer is None or f'iter({okey})' not in src:
-        raise AnalysisError(f'{fi.fq}: the way group-key values are put back into the output row is not understood')
-    ctargets, cgi, cleft, cidx = consumer
-    if cleft != cidx:
-        fail('key-layout', f'group-key values are consumed under the test `{cleft} in {cgi}`, not by target position')
-    gidefs = [n for n in ast.walk(fi.node) if isinstance(n, ast.Assign) and unparse(n.targets[0]) == cgi]
-    gi_is_set = bool(gidefs) and all('set(' in unparse(d.value) for d in gidefs)
-    # producer of the key: the list iterated to compute `key`
-    pdefs = [n for n in ast.walk(fi.node) if isinstance(n, ast.Assign) and nonagg and unparse(n.targets[0]) == nonagg]
-    appended = [n for n in ast.walk(fi.node) if isinstance(n, ast.For) and nonagg and f'{nonagg}.append(' in unparse(n)]
-    layout_ok = None
-    if appended and len(pdefs) == 1 and unparse(pdefs[0].value) == '[]':
-        pl0 = appended[0]
-        tests = [t for t in pl0.body if isinstance(t, ast.If) and f'{nonagg}.append(' in unparse(t.body)]
-        if (isinstance(pl0.iter, ast.Call) and unparse(pl0.iter.func) == 'enumerate' and unparse(pl0.iter.args[0]) == ctargets
-                and len(tests) == 1 and isinstance(tests[0].test, ast.Compare) and isinstance(tests[0].test.ops[0], ast.In)
-                and unparse(tests[0].test.comparators[0]) == cgi
-                and unparse(tests[0].test.left) == unparse(pl0.target.elts[0])):
-            layout_ok = True
-        else:
-            layout_ok = False
-    elif len(pdefs) == 1 and isinstance(pdefs[0].value, ast.ListComp):
-        c = pdefs[0].value
-        g = c.generators[0]
-        if unparse(c.elt) == f'{ctargets}[{unparse(g.target)}]' and unparse(g.iter) == cgi and not g.ifs:
-            # one key item per element of the index collection, in its order: equals the consumption order only when
-            # that collection holds each grouped target once, in target order
-            srcs = [unparse(d.value) for d in gidefs]
-            layout_ok = bool(srcs) and all(re.search(r'sorted\(set\(', x) for x in srcs)
-        else:
-            layout_ok = False
-    if layout_ok is None:
-        raise AnalysisError(f'{fi.fq}: construction of the group-key expression list `{nonagg}` is not understood')
-    if not layout_ok:
-        fail('key-layout', f'the group key is built from `{nonagg}` in an order / multiplicity that differs from the way the output '
-             f'loop reads it back (one item per target whose index is in {cgi}, in target order): with a GROUP BY that names a target '
-             f'twice or out of order, key values land in the wrong columns')
-    # nonagg / L provenance: partition of the targets by membership in group_indexes
-    part = [n for n in ast.walk(fi.node) if isinstance(n, ast.For) and nonagg and f'{nonagg}.append(' in unparse(n)
-            and f'{L}.extend(' in unparse(n)]
-    if len(part) != 1:
-        res.info('partition loop of targets into group keys and aggregates not recognised (not judged)')
-    else:
-        pl = part[0]
-        tests = [n for n in pl.body if isinstance(n, ast.If)]
-        if len(tests) == 1 and 'in group_indexes' in unparse(tests[0].test) and 'not in' not in unparse(tests[0].test) \
-                and f'{nonagg}.append(' in unparse(tests[0].body) and f'{L}.extend(' in unparse(tests[0].orelse):
-            pass
-        else:
-            fail('partition', 'targets must be split into group keys (index in group_indexes) and aggregate expressions', pl)
-    if len(res.findings) == n0:
-        res.ok({'aggregate_list': L, 'key_exprs': nonagg, 'container': container, 'factory': factory,
-                'clauses': ['allocate', 'initialize', 'ordered-container', 'update-under-gate', 'finalize-per-group',
-                            'having', 'single-append'], 'gate_cases': 4, 'having_cases': 4})
-    return res
 
 
 # ----------------------------------------------------------------------
 # R-PIPELINE / R-SORTSKEL
 
-def _tail_stages(fi):
-    """Top-level statements after the row stage, classified."""
-    rows, ret = _rows_var(fi)
-    q = _qparam(fi)
-    body = body_without_docstring(fi.node)
-    # the row stage ends at the last top-level statement containing a scan of the table
-    last = max(i for i, s in enumerate(body) if any(isinstance(n, ast.For) and n in _table_loops(fi) for n in ast.walk(s)))
-    stages = []
-    for s in body[last + 1:]:
-        src = unparse(s)
-        kind = None
-        if s is ret:
-            rv = ret.value.elts[1]
-            if isinstance(rv, ast.Call) and unparse(rv.func) == 'list' and rv.args:
-                rv = rv.args[0]
-            if isinstance(rv, (ast.ListComp, ast.GeneratorExp)):
-                # projection performed by the return expression itself
-                stages.append(('PROJECT', ast.Assign(targets=[ast.Name(id=rows, ctx=ast.Store())], value=rv, lineno=ret.lineno)))
-            kind = 'RETURN'
-        elif '.sort(' in src or 'sorted(' in src:
-            kind = 'SORT'
-        elif 'uniquify(' in src or 'dict.fromkeys' in src or 'seen' in src:
-            kind = 'DISTINCT'
-        elif 'islice(' in src or f'{q}.limit' in src:
-            kind = 'LIMIT'
-        elif isinstance(s, ast.Assign) and unparse(s.targets[0]) == rows:
-            kind = 'PROJECT'
-        elif isinstance(s, (ast.Assign, ast.Expr)) and rows not in {n.id for n in ast.walk(s) if isinstance(n, ast.Name)}:
-            kind = 'OTHER'
-        else:
-            kind = 'UNKNOWN'
-        stages.append((kind, s))
-    return rows, q, stages
 
 
-def rule_pipeline(P) -> RuleResult:
-    res = RuleResult('R-PIPELINE')
-    fi = _select_fn(P)
-    rows, q, stages = _tail_stages(fi)
-    construct = fi.fq + ':result-pipeline'
-    kinds = [k for k, _ in stages if k != 'OTHER']
-    if 'UNKNOWN' in kinds:
-        bad = next(s for k, s in stages if k == 'UNKNOWN')
-        raise AnalysisError(f'{fi.fq}: statement `{unparse(bad)[:60]}` touches the result rows in a way the rule does not '
-                            f'understand')
-    want = ['SORT', 'PROJECT', 'DISTINCT', 'LIMIT', 'RETURN']
-    n0 = len(res.findings)
-    for k in want:
-        if kinds.count(k) != 1:
-            if kinds.count(k) == 0 and k in ('SORT', 'DISTINCT', 'LIMIT'):
-                res.fail(construct, f'missing:{k}', f'the {k} stage is missing from the result pipeline', loc(fi))
-            elif kinds.count(k) == 0:
-                raise AnalysisError(f'{fi.fq}: {k} stage not recognised')
-            else:
-                res.fail(construct, f'twice:{k}', f'the {k} stage is applied {kinds.count(k)} times', loc(fi))
-    if not res.findings[n0:] and kinds != want:
-        res.fail(construct, 'order', f'stages run in the order {" -> ".join(kinds)}; ORDER BY, projection to the visible '
-                 f'columns, DISTINCT and LIMIT must apply in the order {" -> ".join(want)}', loc(fi, stages[0][1]))
-    by = {k: s for k, s in stages}
-    # SORT gate: order_spec is not None
-    s = by.get('SORT')
-    if s is not None:
-        if not (isinstance(s, ast.If) and not s.orelse):
-            raise AnalysisError(f'{fi.fq}: sort stage is not an `if <order spec present>:` block')
-        t = unparse(s.test)
-        spec_names = _aliases(fi, f'{q}.order_spec')
-        if not any(t in (f'{n} is not None', f'{n}') for n in spec_names):
-            res.fail(construct, 'sort-gate', f'the sort stage must run whenever an ORDER BY is present; gate is `{t}`', loc(fi, s))
-    # PROJECT: tuple(row[i] for i in result_indexes) for row in rows
-    s = by.get('PROJECT')
-    if s is not None:
-        v = s.value
-        good = False
-        idxvar = None
-        if isinstance(v, (ast.GeneratorExp, ast.ListComp)) and len(v.generators) == 1 and unparse(v.generators[0].iter) == rows \
-                and not v.generators[0].ifs:
-            rowv = unparse(v.generators[0].target)
-            elt = v.elt
-            if isinstance(elt, ast.Call) and unparse(elt.func) == 'tuple' and elt.args and isinstance(elt.args[0], (ast.GeneratorExp, ast.ListComp)):
-                inner = elt.args[0]
-                g = inner.generators[0]
-                if len(inner.generators) == 1 and not g.ifs and unparse(inner.elt) == f'{rowv}[{unparse(g.target)}]' \
-                        and isinstance(g.iter, ast.Name):
-                    good = True
-                    idxvar = g.iter.id
-        if not good:
-            res.fail(construct, 'project', f'projection must be tuple(row[i] for i in <visible indexes>) for every row; found '
-                     f'`{unparse(v)[:80]}`', loc(fi, s))
-        else:
-            res.ok({'stage': 'PROJECT', 'indexes': idxvar})
-    # DISTINCT gate: truthiness of query.distinct; applies uniquify to rows
-    s = by.get('DISTINCT')
-    if s is not None:
-        if not (isinstance(s, ast.If) and not s.orelse and len(s.body) == 1 and isinstance(s.body[0], ast.Assign)):
-            raise AnalysisError(f'{fi.fq}: DISTINCT stage shape not understood')
-        if unparse(s.test) not in (f'{q}.distinct', f'{q}.distinct is True', f'{q}.distinct is not None'):
-            res.fail(construct, 'distinct-gate', f'DISTINCT must apply exactly when requested; gate is `{unparse(s.test)}`', loc(fi, s))
-        a = s.body[0]
-        if not (unparse(a.targets[0]) == rows and isinstance(a.value, ast.Call) and [unparse(x) for x in a.value.args] == [rows]):
-            res.fail(construct, 'distinct', f'DISTINCT must de-duplicate the projected rows as they are; found `{unparse(a)}`', loc(fi, s))
-        else:
-            callee = unparse(a.value.func)
-            tgt = P.lookup(fi.module.dotted(a.value.func) or '')
-            if not (isinstance(tgt, FuncInfo) and tgt.name == 'uniquify'):
-                raise AnalysisError(f'{fi.fq}: DISTINCT implemented by `{callee}`, which the rule does not know')
-            res.ok({'stage': 'DISTINCT', 'callee': tgt.fq})
-    # LIMIT gate: `is not None` (LIMIT 0 must cut to nothing) and the bound is query.limit itself
-    s = by.get('LIMIT')
-    if s is not None:
-        if not (isinstance(s, ast.If) and not s.orelse and len(s.body) == 1 and isinstance(s.body[0], ast.Assign)):
-            raise AnalysisError(f'{fi.fq}: LIMIT stage shape not understood')
-        if unparse(s.test) != f'{q}.limit is not None':
-            res.fail(construct, 'limit-gate', f'LIMIT must apply whenever a limit is given, including LIMIT 0: the gate must be '
-                     f'`{q}.limit is not None`, found `{unparse(s.test)}`', loc(fi, s))
-        a = s.body[0]
-        v = a.value
-        if isinstance(v, ast.Call) and unparse(v.func) == 'list' and v.args:
-            v = v.args[0]
-        good = (unparse(a.targets[0]) == rows and isinstance(v, ast.Call)
-                and fi.module.dotted(v.func) == 'itertools.islice' and [unparse(x) for x in v.args] == [rows, f'{q}.limit'])
-        if not good:
-            if isinstance(v, ast.Subscript) and unparse(v.value) == rows and unparse(v.slice) == f':{q}.limit':
-                good = True
-        if not good:
-            res.fail(construct, 'limit', f'LIMIT n must keep the first n rows: islice(rows, {q}.limit); found `{unparse(a)}`', loc(fi, s))
-        else:
-            res.ok({'stage': 'LIMIT', 'bound': f'{q}.limit'})
-    # the visible-index list used by PROJECT is checked by R-VISFILTER (C07)
-    if len(res.findings) == n0:
-        res.ok({'order': kinds})
-    return res
 
 
-def rule_sortskel(P) -> RuleResult:
-    res = RuleResult('R-SORTSKEL')
-    fi = _select_fn(P)
-    rows, q, stages = _tail_stages(fi)
-    construct = fi.fq + ':sort-stage'
-    s = next((st for k, st in stages if k == 'SORT'), None)
-    if s is None:
-        raise AnalysisError(f'{fi.fq}: no sort stage')
-    loops = [n for n in ast.walk(s) if isinstance(n, ast.For)]
-    if len(loops) != 1:
-        raise AnalysisError(f'{fi.fq}: the sort stage is not the multi-pass loop this rule understands')
-    lp = loops[0]
-    it = lp.iter
-    if not (isinstance(it, ast.Call) and fi.module.dotted(it.func) == 'itertools.groupby'):
-        raise AnalysisError(f'{fi.fq}: the sort passes are not grouped with itertools.groupby: shape not understood')
-    n0 = len(res.findings)
-    spec_names = _aliases(fi, f'{q}.order_spec')
-    # passes from the last key to the first
-    a0 = it.args[0] if it.args else None
-    if not (isinstance(a0, ast.Call) and unparse(a0.func) == 'reversed' and unparse(a0.args[0]) in spec_names):
-        res.fail(construct, 'pass-order', 'stable multi-pass sorting must process the ORDER BY keys from the last to the '
-                 f'first: groupby(reversed(order_spec), ...); found `{unparse(a0) if a0 is not None else "?"}`', loc(fi, lp))
-    # grouped by direction (element 1 of each spec item)
-    key = next((k.value for k in it.keywords if k.arg == 'key'), it.args[1] if len(it.args) > 1 else None)
-    kd = unparse(key) if key is not None else ''
-    if not (kd in ('operator.itemgetter(1)', 'itemgetter(1)') or kd.replace(' ', '') in ('lambdax:x[1]', 'lambdas:s[1]', 'lambdai:i[1]')):
-        res.fail(construct, 'run-key', f'runs must be formed by the direction of each key (item 1 of the order spec); found key `{kd}`', loc(fi, lp))
-    if not (isinstance(lp.target, ast.Tuple) and len(lp.target.elts) == 2):
-        raise AnalysisError(f'{fi.fq}: sort loop target is not (direction, run)')
-    dirvar, runvar = (unparse(x) for x in lp.target.elts)
-    # inside a run the keys are put back in left-to-right order
-    idx_defs = [n for n in lp.body if isinstance(n, ast.Assign)]
-    sort_calls = [n for n in ast.walk(lp) if isinstance(n, ast.Call) and isinstance(n.func, ast.Attribute) and n.func.attr == 'sort'
-                  and unparse(n.func.value) == rows]
-    if len(sort_calls) != 1:
-        raise AnalysisError(f'{fi.fq}: expected one in-place `{rows}.sort(...)` per run')
-    sc = sort_calls[0]
-    kw = {k.arg: k.value for k in sc.keywords}
-    if 'reverse' not in kw or unparse(kw['reverse']) != dirvar:
-        res.fail(construct, 'direction', f'each pass must sort in the direction of its run: reverse={dirvar}; found '
-                 f'`reverse={unparse(kw["reverse"]) if "reverse" in kw else "<absent>"}`', loc(fi, sc))
-    kf = kw.get('key')
-    if kf is None:
-        res.fail(construct, 'key', 'the sort passes have no key function', loc(fi, sc))
-    else:
-        tgt = P.lookup(fi.module.dotted(kf.func) or '') if isinstance(kf, ast.Call) else None
-        if not (isinstance(tgt, FuncInfo) and tgt.name == 'nullitemgetter'):
-            res.fail(construct, 'key', f'sort keys may hold NULL: the key function must be the NULL-smallest getter '
-                     f'(nullitemgetter); found `{unparse(kf)}`', loc(fi, sc))
-        else:
-            arg = kf.args[0] if kf.args else None
-            if not (isinstance(arg, ast.Starred) and isinstance(arg.value, ast.Name)):
-                raise AnalysisError(f'{fi.fq}: key indexes argument not understood')
-            iv = arg.value.id
-            d = [n for n in idx_defs if unparse(n.targets[0]) == iv]
-            if len(d) != 1:
-                raise AnalysisError(f'{fi.fq}: definition of `{iv}` not found in the pass body')
-            v = d[0].value
-            comp = None
-            rev = 0
-            while isinstance(v, ast.Call) and unparse(v.func) in ('reversed', 'list', 'tuple') and v.args:
-                if unparse(v.func) == 'reversed':
-                    rev += 1
-                v = v.args[0]
-            if isinstance(v, (ast.ListComp, ast.GeneratorExp)):
-                comp = v
-            if comp is None or unparse(comp.generators[0].iter) != runvar:
-                raise AnalysisError(f'{fi.fq}: key index list not understood')
-            if rev % 2 != 1:
-                res.fail(construct, 'key-order', 'keys of one run come out of the reversed order spec in right-to-left order and '
-                         'must be reversed back, so that the leftmost key is the most significant', loc(fi, d[0]))
-            if unparse(comp.elt) != f'{unparse(comp.generators[0].target)}[0]':
-                res.fail(construct, 'key-index', f'the sort key must be the target index (item 0 of each order spec item); '
-                         f'found `{unparse(comp.elt)}`', loc(fi, d[0]))
-    if len(res.findings) == n0:
-        res.ok({'passes': 'groupby(reversed(order_spec), key=direction)', 'per_run': 'reversed back, stable list.sort, '
-                'reverse=direction, key=nullitemgetter'})
-    return res
 
 
 # ----------------------------------------------------------------------
@@ -718,208 +125,15 @@ NULLM = finite.Sym('NULL')
 VV = finite.Sym('V')
 
 
-def rule_nullkey(P) -> RuleResult:
-    res = RuleResult('R-NULLKEY')
-    res.exhaustive = True
-    m = P.module(QX)
-    # nullitemgetter: both closures replace None by NULL, keep everything else
-    nig = P.func(QX, 'nullitemgetter')
-    inner = [f for qn, f in m.functions.items() if qn.startswith('nullitemgetter.<locals>.')]
-    if len(inner) < 2:
-        raise AnalysisError('anchor vanished: the two closures of nullitemgetter')
-    null_names = {n for n, v in m.assigns.items() if isinstance(v, ast.Call) and unparse(v.func) == 'NullType'}
-    if not null_names:
-        raise AnalysisError('anchor vanished: NULL = NullType()')
-    for f in inner:
-        fn = f.node
-        param = f.params[0]
-        multi = any(isinstance(s, ast.For) for s in fn.body)
-        for cls in (None, VV, False, 0, finite.Falsy('ZERO')):
-            def sub(e, st, mm, _cls=cls):
-                return _cls
-            mach = finite.Machine(subscript=sub, names={n: NULLM for n in null_names} | {param: finite.Sym('ROW'), 'items': finite.Sym('ITEMS')})
-            mach.comprehensions = True
-            want = NULLM if cls is None else cls
-            try:
-                if not multi and any(isinstance(x, (ast.GeneratorExp, ast.ListComp)) for x in ast.walk(fn)):
-                    # comprehension form of the multi-key getter: the value of each element
-                    mach.run(body_without_docstring(fn), {})
-                    got = '?'
-                elif multi:
-                    pre, loop, post = finite.split_loop(fn)
-                    st = mach.run(pre, {})
-                    st = dict(st)
-                    st[loop.target.id] = finite.Sym('I')
-                    st = mach.run(loop.body, st)
-                    got = [e[2] for e in mach.events if e[0] == 'append']
-                    got = got[0] if len(got) == 1 else ('?', got)
-                else:
-                    mach.run(body_without_docstring(fn), {})
-                    got = '?'
-            except finite.Return as r:
-                got = r.value
-                if isinstance(got, finite.Each):
-                    got = got.value
-            if got is want or got == want and type(got) is type(want):
-                res.ok({'getter': f.qualname, 'item': repr(cls), 'key': repr(got)})
-            else:
-                res.fail(f.fq, f'nullkey:{cls!r}', f'sort key for an item holding {cls!r} is {got!r}, must be '
-                         f'{want!r} (NULL is replaced by the smallest marker, every other value is kept)', loc(f))
-        if multi:
-            pre, loop, post = finite.split_loop(fn)
-            if not (post and isinstance(post[-1], ast.Return) and unparse(post[-1].value).startswith('tuple(')):
-                res.fail(f.fq, 'nullkey:tuple', 'the multi-key getter must return the tuple of all keys', loc(f))
-    # NullType ordering: the comparisons list.sort / tuple comparison can issue
-    nt = P.cls(QX, 'NullType')
-    for meth, other, want, why in (('__lt__', 'null', False, 'NULL < NULL is false (NULLs are equal)'),
-                                   ('__lt__', 'value', True, 'NULL < value is true (NULL sorts first)'),
-                                   ('__gt__', 'value', False, 'value < NULL (reflected NULL > value) is false')):
-        f = nt.methods.get(meth)
-        if f is None:
-            res.fail(nt.fq, f'nulltype:{meth}', f'NullType lacks {meth}', loc(nt))
-            continue
-        mach = finite.Machine(isinstance_=lambda v, c, _o=other: (_o == 'null') if unparse(c) == 'NullType' else False,
-                              names={f.params[0]: NULLM, f.params[1]: (NULLM if other == 'null' else VV)})
-        try:
-            mach.run(body_without_docstring(f.node), {})
-            got = None
-        except finite.Return as r:
-            got = r.value
-        if got is want:
-            res.ok({'method': f'NullType.{meth}', 'other': other, 'result': got})
-        else:
-            res.fail(f.fq, f'nulltype:{meth}:{other}', f'{why}; the method returns {got!r}', loc(f))
-    if '__eq__' in nt.methods or '__hash__' in nt.methods:
-        res.info('NullType defines __eq__/__hash__: identity equality of the NULL singleton is no longer implied (not judged)')
-    # uniquify: yields an object iff not seen, records everything it yields
-    uq = P.func(QX, 'uniquify')
-    pre, loop, post = finite.split_loop(uq.node)
-    for seen in (False, True):
-        m2 = finite.Machine(contains=lambda left, c, st, _s=seen: _s, call=lambda e, st, mm: finite.Sym('C'),
-                            names={'seen': finite.Sym('SEEN')})
-        st = {loop.target.id: VV}
-        for s in pre:
-            if isinstance(s, ast.Assign) and isinstance(s.targets[0], ast.Name):
-                st[s.targets[0].id] = finite.Sym(s.targets[0].id)
-        try:
-            m2.run(loop.body, st)
-        except finite.Continue:
-            pass
-        ys = [e for e in m2.events if e[0] == 'yield']
-        adds = [e for e in m2.events if e[0] == 'add']
-        if seen and (ys or adds):
-            res.fail(uq.fq, 'uniquify:seen', 'a row seen before is yielded again', loc(uq))
-        elif not seen and not (len(ys) == 1 and ys[0][1] == VV and len(adds) == 1 and adds[0][2] == VV):
-            res.fail(uq.fq, 'uniquify:new', 'a row not seen before must be yielded once and recorded as seen', loc(uq))
-        else:
-            res.ok({'uniquify': 'seen' if seen else 'new', 'yields': len(ys), 'records': len(adds)})
-    return res
 
 
 # ----------------------------------------------------------------------
 # R-PRINTFILTER (C14)
 
-def rule_printfilter(P) -> RuleResult:
-    res = RuleResult('R-PRINTFILTER')
-    fi = P.func(QX, 'execute_print')
-    p0 = fi.params[0]
-    loops = [n for n in ast.walk(fi.node) if isinstance(n, ast.For) and unparse(n.iter) in _aliases(fi, f'{p0}.table')]
-    if len(loops) != 1:
-        raise AnalysisError(f'{fi.fq}: scan of the table not found')
-    lp = loops[0]
-    where = _aliases(fi, f'{p0}.where')
-    apps = [n for n in ast.walk(lp) if isinstance(n, ast.Call) and isinstance(n.func, ast.Attribute) and n.func.attr == 'append']
-    if len(apps) != 1:
-        raise AnalysisError(f'{fi.fq}: expected one append per row')
-    lst = unparse(apps[0].func.value)
-    construct = fi.fq
-    ok = _gate_check(fi, lp, lst, where, lambda e: e[0] == 'append' and e[1] == lst, res, construct, 'print')
-    if unparse(apps[0].args[0]) != f'{lp.target.id}.entry':
-        res.fail(construct, 'print:value', f'PRINT must collect the directive of each selected row ({lp.target.id}.entry); '
-                 f'found `{unparse(apps[0].args[0])}`', loc(fi, lp))
-        ok = False
-    pe = [n for n in ast.walk(fi.node) if isinstance(n, ast.Call) and unparse(n.func).endswith('print_entries')]
-    if len(pe) != 1 or unparse(pe[0].args[0]) != lst:
-        res.fail(construct, 'print:sink', 'the selected directives must be handed unmodified to printer.print_entries', loc(fi))
-        ok = False
-    # nothing reorders / filters the list between the loop and the printer
-    for n in ast.walk(fi.node):
-        if isinstance(n, ast.Call) and isinstance(n.func, ast.Attribute) and unparse(n.func.value) == lst \
-                and n.func.attr in ('sort', 'reverse', 'pop', 'remove', 'clear', 'insert'):
-            res.fail(construct, 'print:order', f'the list of directives is modified by `{unparse(n)}` before printing', loc(fi, n))
-            ok = False
-    if ok:
-        res.ok({'loop': unparse(lp.iter), 'gate': 'absent or truthy', 'collects': f'{lp.target.id}.entry', 'cases': 4})
-    return res
 
 
 # ----------------------------------------------------------------------
 # R-FROMAND (C01): the FROM expression is AND-ed with the WHERE expression
 
-def _select_compiler(P):
-    m = P.module('beanquery.compiler')
-    for fi in m.functions.values():
-        if fi.qualname.startswith('Compiler.') and any(
-                isinstance(n, ast.Call) and unparse(n.func) == 'EvalQuery' for n in ast.walk(fi.node)) \
-                and fi.qualname.count('.') == 1:
-            return fi
-    raise AnalysisError('anchor vanished: the Compiler method constructing EvalQuery')
 
 
-def rule_fromand(P) -> RuleResult:
-    res = RuleResult('R-FROMAND')
-    res.exhaustive = True
-    fi = _select_compiler(P)
-    call = next(n for n in ast.walk(fi.node) if isinstance(n, ast.Call) and unparse(n.func) == 'EvalQuery')
-    warg = call.args[2] if len(call.args) > 2 else next((k.value for k in call.keywords if k.arg == 'c_where'), None)
-    if not isinstance(warg, ast.Name):
-        raise AnalysisError(f'{fi.fq}: the WHERE argument of EvalQuery is not a variable')
-    W = warg.id
-    fdef = [n for n in fi.node.body if isinstance(n, ast.Assign) and isinstance(n.value, ast.Call)
-            and unparse(n.value.func) == 'self._compile_from' and isinstance(n.targets[0], ast.Name)]
-    if len(fdef) != 1:
-        raise AnalysisError(f'{fi.fq}: `<var> = self._compile_from(...)` not found')
-    F = fdef[0].targets[0].id
-    sl = []
-    for s in body_without_docstring(fi.node):
-        names = {n.id for n in ast.walk(s) if isinstance(n, ast.Name)}
-        stores = {n.id for n in ast.walk(s) if isinstance(n, ast.Name) and isinstance(n.ctx, ast.Store)}
-        if s is fdef[0] or (stores & {W, F}) or (isinstance(s, ast.If) and (names & {W, F})):
-            sl.append(s)
-    FS, WS = finite.Sym('FROM'), finite.Sym('WHERE')
-    construct = fi.fq
-    ok = True
-    for f in (None, FS):
-        for w in (None, WS):
-            def callh(e, st, m, _f=f, _w=w):
-                src = unparse(e.func)
-                if src == 'self._compile_from':
-                    return _f
-                if src == 'self._compile':
-                    return _w
-                if src == 'is_aggregate':
-                    return False
-                if src == 'EvalAnd' and len(e.args) == 1 and isinstance(e.args[0], (ast.List, ast.Tuple)):
-                    return ('And',) + tuple(m.ev(x, st) for x in e.args[0].elts)
-                if src[:1].isupper():
-                    # some other node constructor: kept symbolic, compared with the specification below
-                    return (src,) + tuple(unparse(a) for a in e.args)
-                return NotImplemented
-            mach = finite.Machine(call=callh, expr=lambda e, st, m: finite.Sym(unparse(e)) if isinstance(e, ast.Attribute) else NotImplemented,
-                                  names={'self': finite.Sym('self'), 'node': finite.Sym('node')})
-            try:
-                st = mach.run(sl, {})
-            except finite.Return:
-                raise AnalysisError(f'{fi.fq}: slice of the WHERE computation returns early')
-            got = st.get(W)
-            want = None if (f is None and w is None) else f if w is None else w if f is None else ('And', FS, WS)
-            if got == want:
-                continue
-            ok = False
-            desc = f'FROM expression {"present" if f else "absent"}, WHERE {"present" if w else "absent"}'
-            res.fail(construct, f'fromand:{"F" if f else "-"}{"W" if w else "-"}',
-                     f'{desc}: the row condition becomes {got!r}, must be {want!r} (the FROM expression is AND-ed with WHERE)',
-                     loc(fi, fdef[0]))
-    if ok:
-        res.ok({'function': fi.fq, 'cases': 4, 'result': 'None | from | where | And[from, where]'})
-    return res
